@@ -211,9 +211,37 @@ Definition lib_getitem_int_check (debug : bool) (size : nat) (idx : Z) : res uni
     try_catch (bind (py_range_idx size idx) (fun _ => Ok tt)) Raise
   else Ok tt.
 
+(* dtypes of index tensors (torch.bool masks select by position; the others carry VALUES) *)
+Inductive idtype := DBool | DUInt8 | DInt8 | DInt16 | DInt32 | DInt64.
+Definition idtype_eqb (x y : idtype) : bool :=
+  match x, y with
+  | DBool, DBool | DUInt8, DUInt8 | DInt8, DInt8 | DInt16, DInt16 | DInt32, DInt32 | DInt64, DInt64 => true
+  | _, _ => false
+  end.
+Definition all_idtypes : list idtype := [DBool; DUInt8; DInt8; DInt16; DInt32; DInt64].
+
+(* idx.max().item() / idx.min().item() of a non-empty tensor, on its flattened values *)
+Definition zmax (l : list Z) : Z := match l with [] => 0%Z | v :: r => fold_right Z.max v r end.
+Definition zmin (l : list Z) : Z := match l with [] => 0%Z | v :: r => fold_right Z.min v r end.
+
+(* utils/getitem.py::_compute_getitem_size, the range check at the top of the `torch.is_tensor(idx)` branch
+   (hand copy of the generated term):
+     if settings.debug.on() and idx.numel() and idx.dtype != torch.bool:
+         if idx.max().item() >= size or idx.min().item() < -size: raise IndexError *)
+Definition lib_getitem_tensor_check (debug : bool) (dt : idtype) (size : nat) (vals : list Z) : res unit :=
+  if debug then
+    if negb (length vals =? 0) then
+      if negb (idtype_eqb dt DBool) then
+        if (Z.of_nat size <=? zmax vals)%Z then Raise
+        else if (zmin vals <? - Z.of_nat size)%Z then Raise
+        else Ok tt
+      else Ok tt
+    else Ok tt
+  else Ok tt.
+
 (* index items after __getitem__'s normalisation: python int, slice (only its length on this dimension
-   matters here; computed by the harness with Python's own slice.indices), tensor index (its shape) *)
-Inductive item := IInt (i : Z) | ISlice (len : nat) | ITensor (sh : shape).
+   matters here; computed by the harness with Python's own slice.indices), tensor index (dtype, shape, flattened values) *)
+Inductive item := IInt (i : Z) | ISlice (len : nat) | ITensor (dt : idtype) (sh : shape) (vals : list Z).
 
 (* loop state of _compute_getitem_size *)
 Record gstate := GS { g_final : shape; g_tidx : option nat; g_tshape : option shape; g_slice_after : bool }.
@@ -224,13 +252,14 @@ Definition getitem_step (debug : bool) (st : gstate) (size : nat) (it : item) : 
       Ok (GS (g_final st ++ [len]) (g_tidx st) (g_tshape st)
              (match g_tidx st with Some _ => true | None => g_slice_after st end))
   | IInt i => bind (lib_getitem_int_check debug size i) (fun _ => Ok st)
-  | ITensor sh =>
+  | ITensor dt sh vals =>
+      bind (lib_getitem_tensor_check debug dt size vals) (fun _ =>
       match g_tshape st with
       | None => Ok (GS (g_final st) (Some (length (g_final st))) (Some sh) (g_slice_after st))
       | Some ts =>
           bind (lift (torch_broadcast ts sh)) (fun ts' =>
           Ok (GS (g_final st) (if g_slice_after st then Some 0 else g_tidx st) (Some ts') (g_slice_after st)))
-      end
+      end)
   end.
 
 Fixpoint getitem_loop (debug : bool) (st : gstate) (sizes : shape) (idx : list item) : res gstate :=
